@@ -34,7 +34,10 @@ def outVal : Out Val → Json
 
 def canonicalOp : Handler := fun args =>
   match Val.ofJson (getObj args "tree") with
-  | .ok v => outVal (canonical (getBool args "ign") v)
+  | .ok v =>
+    match canonical (getBool args "ign") v with
+    | .ok r => Json.mkObj [("ok", r.toJson)]
+    | _ => Json.mkObj [("fails", Json.arr ((fails (getBool args "ign") TPath.root v).map Json.str).toArray)]
   | .error e => Json.mkObj [("bad", e)]
 
 /-- `Canonical(Canonical(v))` -/
